@@ -253,6 +253,13 @@ namespace occa {
         }
       } while (it != reservations.end());
 
+      /*
+      setPtr changed the offsets the set is ordered by.  Packing keeps the
+      order of distinct keys, but reservations which now share offset and
+      size are ordered by address: re-insert them so that find() works
+      */
+      reservationSet(reservations.begin(), reservations.end()).swap(reservations);
+
       /*Clean up old buffer*/
       delete buffer;
 
@@ -360,6 +367,9 @@ namespace occa {
           setPtr(m, newBuffer, m->offset - (lo - offset));
         }
       } while (it != reservations.end());
+
+      /*The offsets changed: restore the order of the set (see resize)*/
+      reservationSet(reservations.begin(), reservations.end()).swap(reservations);
 
       /*Clean up old buffer*/
       delete buffer;
